@@ -72,7 +72,7 @@ struct Add {
 }
 
 fn store_adds(r: &mut StdRng, apex: &str, class_v: u16) -> Vec<Add> {
-    let labels = ["a", "b", "*", "ns", "mx", "del", "sib"];
+    let labels = ["a", "b", "*", "ns", "mx", "del", "sib", "zq", "a-z_0", "*x", "**"];
     let mut owners: Vec<String> = vec![apex.to_string()];
     for _ in 0..r.gen_range(3..10) {
         let mut s = String::new();
@@ -115,8 +115,9 @@ fn store_adds(r: &mut StdRng, apex: &str, class_v: u16) -> Vec<Add> {
         let target = rand_case(r, &t0);
         let k = r.gen_range(0..100);
         let (ty, rd): (u16, Vec<u8>) = if k < 12 {
-            let mut v = w(&sub("ns", apex));
-            v.extend(w(&sub("h", apex)));
+            // (the same SOA in another letter case is the same record, not a second SOA)
+            let mut v = w(&rand_case(r, &sub("ns", apex)));
+            v.extend(w(&rand_case(r, &sub("h", apex))));
             for x in [1u32, 2, 3, 4, r.gen_range(0..3)] { v.extend_from_slice(&x.to_be_bytes()); }
             (6, v)
         } else if k < 35 {
@@ -131,6 +132,11 @@ fn store_adds(r: &mut StdRng, apex: &str, class_v: u16) -> Vec<Add> {
             let mut v = vec![0, r.gen_range(0..3)];
             v.extend(w(&target));
             (15, v)
+        } else if k < 88 {
+            // SRV: in class IN the target compares case-insensitively, in any other class the RDATA is opaque
+            let mut v = vec![0, 1, 0, 2, 0, r.gen_range(80..82)];
+            v.extend(w(&target));
+            (33, v)
         } else if k < 92 {
             (16, vec![1, *[b'x', b'X', b'y'].choose(r).unwrap()])
         } else {
@@ -139,7 +145,10 @@ fn store_adds(r: &mut StdRng, apex: &str, class_v: u16) -> Vec<Add> {
         };
         let cls: u16 = if r.gen_bool(0.06) { *[2u16, 255, 254].choose(r).unwrap() } else { class_v };
         let ttl: u32 = *[60u32, 60, 60, 300, 0].choose(r).unwrap();
-        adds.push(Add { owner, ty, class: cls, ttl, rdata: rd });
+        // a second SRV at the same owner whose target differs only in letter case: one record in class IN, two elsewhere
+        let twin = if ty == 33 && r.gen_bool(0.6) { let mut v = rd.clone(); for b in v[6..].iter_mut() { if b.is_ascii_alphabetic() { *b ^= 0x20; } } Some(v) } else { None };
+        adds.push(Add { owner: owner.clone(), ty, class: cls, ttl, rdata: rd });
+        if let Some(v) = twin { adds.push(Add { owner, ty, class: cls, ttl, rdata: v }); }
     }
     adds
 }
@@ -382,6 +391,19 @@ fn lookup(r: &mut StdRng, n: usize, out: &mut Out) {
                     ("all", 0, jall(&zone, &name, &o))
                 };
                 out.emit(json!({"ev": "Lk", "fn": f, "name": wire(&name), "type": ty, "unchecked": unchecked, "sbc": sbc, "res": res}));
+            }
+        }
+        // names that differ from an owner name only in bit 5 of octets that are not letters ('*' / LF, '-' / CR, ...):
+        // other names, whatever a careless case fold makes of them
+        for on in names.clone().iter().take(40) {
+            let ow = wire(&nm(on));
+            let vw = bit5_variant(r, &ow);
+            if vw == ow { continue; }
+            let name = name_of_wire(&vw);
+            for (unchecked, sbc) in [(false, true), (true, false)] {
+                let o = LookupOptions { unchecked, search_below_cuts: sbc };
+                let ty = *types.choose(r).unwrap();
+                out.emit(json!({"ev": "Lk", "fn": "lookup", "name": wire(&name), "type": ty, "unchecked": unchecked, "sbc": sbc, "res": jlookup(&zone, &name, ty, &o)}));
             }
         }
         for qn in &outside {
